@@ -77,6 +77,25 @@ Theorem C04_iterator_translated_any_count : forall shuf N, (forall k b, length (
          end.
 Proof. exact srb_iter_eq. Qed.
 
+(* "successive windows are re-shuffled", exact part: after `steps` batches of `bs` indices the
+   oracle has been consulted k times with steps*bs <= k*N < steps*bs + N, i.e. exactly once
+   per window of N draws STARTED (k = ceil(steps*bs / N)); no hypothesis on the oracle.
+   `final_state` is the state `run` threads through its batches (second conjunct). *)
+Theorem C04_reshuffle_once_per_window : forall shuf N, 1 <= N -> forall steps bs,
+  (let k := nsh (final_state shuf N steps bs (init N)) in steps * bs <= k * N < steps * bs + N) /\
+  (forall s, run shuf N (S steps) bs s
+     = run shuf N steps bs s ++ [snd (fill shuf N (S bs) bs (final_state shuf N steps bs s) [])]).
+Proof. exact (fun shuf N HN steps bs => conj (reshuffles_are_windows_started shuf N HN steps bs)
+                                          (run_along_final_state shuf N steps bs)). Qed.
+
+(* defaults of ShuffleRepeatBatchHParams (translated from the class body) are the documented
+   ones: one epoch, no step limit, keep the remainder, no seed, shuffle *)
+Theorem C04_hparams_defaults :
+  hp_shuffle_num_epochs_default = Some 1%Z /\ hp_shuffle_num_steps_default = None /\
+  hp_shuffle_drop_remainder_default = false /\ hp_shuffle_seed_default = None /\
+  hp_shuffle_skip_shuffle_default = false.
+Proof. exact hparams_defaults_c04. Qed.
+
 (* with shuffling disabled the stream is the cyclic original order *)
 Theorem C04_skip_shuffle_cyclic : forall N steps bs p, 1 <= N -> p < steps * bs ->
   nth p (concat (batches idshuf N steps bs)) 0 = p mod N.
@@ -98,11 +117,22 @@ Example C04_example :
   srb_iter rot 5 3 0 2 None false = GDone [].
 Proof. vm_compute. repeat split. Qed.
 
+(* the hypotheses of Section C04 are satisfiable by a non-trivial oracle: rotation by one *)
+Example C04_hypotheses_example :
+  let rot := fun (_ : nat) (b : list nat) => match b with [] => [] | x :: t => t ++ [x] end in
+  (forall k b, Permutation (rot k b) b) /\ 1 <= 3 /\ rot 0 [0; 1; 2] <> [0; 1; 2].
+Proof.
+  cbv zeta. split; [|split; [repeat constructor|discriminate]].
+  intros _ [|x t]; [constructor|]. symmetry. change (x :: t) with ([x] ++ t). apply Permutation_app_comm.
+Qed.
+
 Print Assumptions C04_num_steps_formula.
 Print Assumptions C04_stream_is_window_concat.
 Print Assumptions C04_first_batches_cover.
 Print Assumptions C04_usage_balanced.
 Print Assumptions C04_iterator_translated.
 Print Assumptions C04_iterator_translated_any_count.
+Print Assumptions C04_reshuffle_once_per_window.
+Print Assumptions C04_hparams_defaults.
 Print Assumptions C04_skip_shuffle_cyclic.
 Print Assumptions C04_empty_dataset_no_batches.
